@@ -32,6 +32,8 @@ def input_name(body, t):
     walk(e, f)
     if re.search(r"ObservableState::<.*>::poll_update$", t.get("callee") or ""):
         return "<waker list>"
+    if not is_poll_call(t) and not re.search(REARM_PAT, t.get("callee") or "") and (t.get("callee") or "").split("::")[-1] not in ("set", "try_set"):
+        return "helper:" + (t.get("callee") or "?").split("::")[-1]
     # innermost field names first in walk order: take the outermost meaningful one
     for n in names:
         if n not in ("0", "pointer", "__pointer"):
@@ -55,20 +57,30 @@ def poll_fns(F, crates):
         b = f.built
         if not b or cx_param(b) is None:
             continue
-        sites = [(blk, t) for blk, t in b.calls() if is_poll_call(t) and not is_delegation(F, f, t)]
+        sites = [(blk, t) for blk, t in b.calls() if is_poll_call(t)]
+        sites += [(blk, t) for blk, t, c in local_poll_helper_calls(F, f)]
         if sites:
             out.append((f, sites))
     return out
 
 
 def is_delegation(F, f, t):
-    """a call to another local poll function of the same object (self.project().poll_next(cx))."""
-    c = F.local_callee(f, t)
-    if c is None:
-        return False
-    if re.search(r"ReusableBox(Recv)?Future::<.*>::poll$|ObservableState::<.*>::poll_update$", c.path):
-        return False
-    return True
+    """kept for callers: a call to a local poll function is NOT excluded any more - it is an input whose own
+    Pending discipline is checked in the callee (interprocedural summary)."""
+    return False
+
+
+def local_poll_helper_calls(F, f):
+    """calls of local functions that take a Context and return Poll<..> (private poll helpers, projections)."""
+    b = f.built
+    out = []
+    for blk, t in b.calls():
+        c = F.local_callee(f, t)
+        if c is None or c is f or not c.built:
+            continue
+        if c.raw.get("sig") and c.raw["sig"]["output"].startswith("std::task::Poll<") and cx_param(c.built) is not None and not is_poll_call(t):
+            out.append((blk, t, c))
+    return out
 
 
 def check_poll_fn(ctx, rule, f, sites):
@@ -83,12 +95,19 @@ def check_poll_fn(ctx, rule, f, sites):
         site_by_loc[(blk, len(b.blocks[blk]["stmts"]))] = name
         ctx.call_sites += 1
         # R14.2 foreign context
-        cxe = b.expr_of_op(t["args"][-1])
+        cx_args = [a for a in t["args"] if a["k"] in ("move", "copy") and "task::Context<" in b.locals[a["place"]["l"]]["ty"]] or [t["args"][-1]]
+        cxe = b.expr_of_op(cx_args[0])
         own = contains(cxe, lambda x: x[0] == "param" and x[1] == cx) or contains(cxe, lambda x: x[0] == "call" and ecall_matches(x, r"get_context$"))
         if not own:
             ctx.violated(rule.replace(".1", ".2"), f, "foreign-context:" + name, b.line_at((blk, 10 ** 6)),
                          "input `%s` is polled with `%s`, not with the caller's context: the caller's waker is not registered with that input" % (name, fmt(cxe, 4)))
     idx = {n: i for i, n in enumerate(inputs)}
+    rearming_helpers = set()
+    for blk, t in sites:
+        if not is_poll_call(t):
+            c = ctx.facts.local_callee(f, t)
+            if c is not None and c.built and c.built.calls(REARM_PAT):
+                rearming_helpers.add(input_name(b, t))
     site_blocks = {loc[0]: n for loc, n in site_by_loc.items()}
     rearm_blocks = {}
     for blk, t in b.calls(REARM_PAT):
@@ -146,7 +165,7 @@ def check_poll_fn(ctx, rule, f, sites):
                     tags[i] = "P"
                 elif vs and vs <= frozenset(["Ready"]):
                     if tags[i] == "Q":
-                        tags[i] = "R"
+                        tags[i] = "A" if site_by_loc[x[4]] in rearming_helpers else "R"
                 elif vs and vs <= frozenset(["None"]):
                     tags[i] = "E"
                 elif vs and vs <= frozenset(["Some", "Ok", "Err"]):
@@ -204,7 +223,7 @@ def check_poll_fn(ctx, rule, f, sites):
                     continue
                 if t in ("U", "A") and any(tags[idx[g]] == "P" for g in gates[n]):
                     continue  # cannot be polled before its gate is ready; the gate's waker fires first
-                if t == "A" and n in GATES:
+                if t == "A" and (n in GATES or n in rearming_helpers):
                     continue  # re-armed gate: polled at the next invocation, which the event source's waker triggers
                 key = (n, t, loc)
                 if key in reported:
